@@ -438,6 +438,7 @@ impl Gen {
             let keep = self.k.random_in_declares && self.k.allow_random;
             let allow_random = std::mem::replace(&mut self.k.allow_random, keep);
             let e = self.expr_in(2, Some(plan));
+            let e = if keep { Expr::bin("+", Expr::call("random", vec![Expr::num(self.rng.gen_range(2..50))]), e) } else { e };
             self.k.p_device = saved;
             self.k.allow_random = allow_random;
             let d = Stmt::Declare { name, e };
